@@ -18,6 +18,13 @@ type TVal struct {
 	Snap  *State // reference evaluated under old(): dereferences read this state
 }
 
+func (c *EvalCtx) fbase() string {
+	if c.freshBase != "" {
+		return c.freshBase
+	}
+	return "AllocBase"
+}
+
 func (c *EvalCtx) stOf(v TVal) *State {
 	if v.Snap != nil {
 		return v.Snap
@@ -34,6 +41,10 @@ type EvalCtx struct {
 	binds map[string]TVal
 	errs  []string
 	depth int
+	// freshBase: objects whose root is above this allocation mark count as fresh() (AllocBase when a function is
+	// verified; the allocation mark at the call when a callee's contract is applied)
+	freshBase string
+	inTrigger bool // evaluating a :pattern term: no boolean connectives allowed
 	// pol: +1 the clause is assumed (facts), -1 it is asserted (goals), 0 unknown. Used to drop the
 	// machine-range guard of unsigned bound variables in assumed universals (sound because values of
 	// unsigned types are always in range) which keeps instantiation independent of range facts.
@@ -293,7 +304,9 @@ func (c *EvalCtx) eval(e *Expr) TVal {
 		for _, group := range e.Trig {
 			var ts []string
 			for _, te := range group {
+				sub.inTrigger = true
 				tv := sub.eval(te)
+				sub.inTrigger = false
 				ts = append(ts, tv.T)
 			}
 			pats += " :pattern (" + strings.Join(ts, " ") + ")"
@@ -693,6 +706,9 @@ func (c *EvalCtx) evalCall(e *Expr) TVal {
 			return c.mk("false", sBool, tb)
 		}
 		dom := fr.heapCur(c.stOf(m), w.MapDomHeap(mt))
+		if c.inTrigger {
+			return c.mk(sel(sel(dom, m.T), k.T), sBool, tb)
+		}
 		return c.mk(and(not(eq(m.T, "0")), sel(sel(dom, m.T), k.T)), sBool, tb)
 	case "held", "wheld", "rheld", "unheld":
 		a := c.mutexAddrOf(e.Args[0])
@@ -867,9 +883,9 @@ func (c *EvalCtx) evalCall(e *Expr) TVal {
 	case "fresh":
 		v := c.eval(e.Args[0])
 		if v.S == sSlice {
-			return c.mk("(or (= (s-arr "+v.T+") 0) (> (fa_root (s-arr "+v.T+")) AllocBase))", sBool, tb)
+			return c.mk("(or (= (s-arr "+v.T+") 0) (> (fa_root (s-arr "+v.T+")) "+c.fbase()+"))", sBool, tb)
 		}
-		return c.mk("(> (fa_root "+v.T+") AllocBase)", sBool, tb)
+		return c.mk("(> (fa_root "+v.T+") "+c.fbase()+")", sBool, tb)
 	case "isnil":
 		v := c.eval(e.Args[0])
 		switch v.S {
@@ -994,7 +1010,7 @@ func (c *EvalCtx) applySpec(sf *SpecFunc, args []TVal) TVal {
 			}
 			binds[p.Name] = a
 		}
-		sub := &EvalCtx{fr: fr, f: nil, st: c.st, old: c.old, pkg: sf.Pkg, binds: binds, depth: c.depth + 1}
+		sub := &EvalCtx{fr: fr, f: nil, st: c.st, old: c.old, pkg: sf.Pkg, binds: binds, depth: c.depth + 1, freshBase: c.freshBase}
 		v := sub.eval(sf.Body)
 		c.errs = append(c.errs, sub.errs...)
 		v.Type = rt
